@@ -202,7 +202,14 @@ pub fn builtin_merge_patch(target: Val, patch: Val) -> Result<Val> {
 
 	let mut out = ObjValueBuilder::new();
 	for field in target_fields.union(&patch_fields) {
-		let Some(field_patch) = patch.get(field.clone())? else {
+		// Only visible fields take part (`std.objectFields`/`std.objectHas` in the documented definition);
+		// `get` would also find hidden ones.
+		let field_patch = if patch.has_field_ex(field.clone(), false) {
+			patch.get(field.clone())?
+		} else {
+			None
+		};
+		let Some(field_patch) = field_patch else {
 			// All lazy fields might be unified into a single filtered object core instead of creating a thunk per, but this implementation is good enough.
 			let target_field = target.get_lazy(field.clone()).expect("we're iterating over fields union, if field is missing in patch - it exists in target");
 			out.field(field.clone()).thunk(target_field);
@@ -211,7 +218,11 @@ pub fn builtin_merge_patch(target: Val, patch: Val) -> Result<Val> {
 		if matches!(field_patch, Val::Null) {
 			continue;
 		}
-		let field_target = target.get(field.clone())?.unwrap_or(Val::Null);
+		let field_target = if target.has_field_ex(field.clone(), false) {
+			target.get(field.clone())?.unwrap_or(Val::Null)
+		} else {
+			Val::Null
+		};
 		out.field(field.clone())
 			.value(builtin_merge_patch(field_target, field_patch)?);
 	}
